@@ -73,8 +73,7 @@ func checkC08(c *Ctx) {
 	for _, fn := range pkgFuncs(p, "pkg/storage/mem") {
 		fn := fn
 		eng.EachInstr(fn, func(in ssa.Instruction) {
-			call, ok := in.(*ssa.Call)
-			if !ok || eng.StaticCallee(call.Common()) != pm.enforcerDlv {
+			if !pm.isEnforcerDeliver(in) {
 				return
 			}
 			nOrd++
@@ -247,7 +246,23 @@ func (c *Ctx) c08Enforcer(pm *pairModel) {
 		for _, b := range fn.Blocks {
 			rel, ok := eng.EdgeRel(b, 0)
 			if !ok {
-				continue
+				// the comparison in a helper of the enforcer (for ledger.over() { … }): the
+				// relation its single boolean result stands for
+				if v, pol, okT := eng.CondTruth(b, 0); okT {
+					if hc, isCall := v.(*ssa.Call); isCall {
+						if rets, hg := eng.ReturnedValues(hc, 0); hg != nil && inF[hg] && hg != E && len(rets) == 1 {
+							if hr, okR := eng.CondRel(rets[0]); okR {
+								rel, ok = hr, true
+								if !pol {
+									rel = rel.Neg()
+								}
+							}
+						}
+					}
+				}
+				if !ok {
+					continue
+				}
 			}
 			if isLimit(rel.X) {
 				rel = rel.Swap()
@@ -325,17 +340,9 @@ func (c *Ctx) c08Enforcer(pm *pairModel) {
 	// removal branch reads it (nil = delivery still pending, the size is not subtracted), so a
 	// second writer that clears it makes an eviction and a pending removal each leave the
 	// subtraction to the other
-	if elT := p.Named("pkg/storage/mem", "Message"); elT != nil {
-		if st, ok := elT.Underlying().(*types.Struct); ok {
-			for i := 0; i < st.NumFields(); i++ {
-				f := st.Field(i)
-				pt, isP := f.Type().(*types.Pointer)
-				if !isP {
-					continue
-				}
-				if n, isN := pt.Elem().(*types.Named); !isN || n.Obj().Pkg() == nil || n.Obj().Pkg().Path() != "container/list" || n.Obj().Name() != "Element" {
-					continue
-				}
+	if elF := memElementField(p); elF != nil {
+		{
+			for _, f := range []*types.Var{elF} {
 				var other []string
 				nW := 0
 				for _, s2 := range eng.StoresToField(pkgFuncs(p, "pkg/storage/mem"), f) {
@@ -411,15 +418,88 @@ func (c *Ctx) c08Enforcer(pm *pairModel) {
 		})
 		return okAll && nSize > 0
 	}
-	for i, rm := range removes {
+	// subtracting helpers: functions of the enforcer every path of which subtracts a Size()
+	// from the account (ledger.release(m)); a call of one is a subtraction at the call site
+	isSubOp := func(in ssa.Instruction) bool {
+		b, ok := in.(*ssa.BinOp)
+		return ok && b.Op == token.SUB && isSizeCall(b.Y)
+	}
+	subHelper := map[*ssa.Function]bool{}
+	for _, g := range F {
+		if g == E || g.Parent() != nil {
+			continue
+		}
+		has := false
+		eng.EachInstr(g, func(in ssa.Instruction) {
+			if isSubOp(in) {
+				has = true
+			}
+		})
+		if has && (&eng.Search{Target: eng.IsReturnOf(g), Avoid: isSubOp}).FromEntry(g) == nil {
+			subHelper[g] = true
+		}
+	}
+	var subCalls []*ssa.Call
+	for _, fn := range F {
+		eng.EachInstr(fn, func(in ssa.Instruction) {
+			if call, ok := in.(*ssa.Call); ok && subHelper[eng.StaticCallee(call.Common())] {
+				subCalls = append(subCalls, call)
+			}
+		})
+	}
+	for i, rm0 := range removes {
 		okSub := false
-		for _, sb := range subs {
-			if sb.Parent() != rm.Parent() || !eng.Dominates(rm, sb) {
-				continue
+		// a removal in a helper that does not account for it itself (popOldest) is judged at
+		// the helper's call sites in the enforcer
+		rmSites := []*ssa.Call{rm0}
+		if h := rm0.Parent(); h != E && h.Parent() == nil {
+			hasSub := false
+			eng.EachInstr(h, func(in ssa.Instruction) {
+				if isSubOp(in) {
+					hasSub = true
+				}
+				if call, ok := in.(*ssa.Call); ok && subHelper[eng.StaticCallee(call.Common())] {
+					hasSub = true
+				}
+			})
+			if !hasSub {
+				var lifted []*ssa.Call
+				for _, cs := range p.StaticCallSites(h) {
+					if sc, ok := cs.Instr.(*ssa.Call); ok && inF[sc.Parent()] {
+						lifted = append(lifted, sc)
+					}
+				}
+				if len(lifted) > 0 {
+					rmSites = lifted
+				}
 			}
-			if successDominates(rm, sb.Block()) {
-				okSub = true
+		}
+		rm := rm0
+		nOK := 0
+		for _, site := range rmSites {
+			siteOK := false
+			for _, sb := range subs {
+				if sb.Parent() != site.Parent() || !eng.Dominates(site, sb) {
+					continue
+				}
+				if successDominates(site, sb.Block()) {
+					siteOK = true
+				}
 			}
+			for _, sc := range subCalls {
+				if sc.Parent() != site.Parent() || !eng.Dominates(site, sc) {
+					continue
+				}
+				if successDominates(site, sc.Block()) {
+					siteOK = true
+				}
+			}
+			if siteOK {
+				nOK++
+			}
+		}
+		if nOK == len(rmSites) && nOK > 0 {
+			okSub = true
 		}
 		for _, sb := range helperSubs {
 			if call, ok := eng.StripConv(sb.Y).(*ssa.Call); ok && eng.StaticCallee(call.Common()) == rm.Parent() && rm.Parent() != E && freedBy(rm) {
